@@ -4,6 +4,7 @@ import (
 	"bytes"
 	"fmt"
 	"strings"
+	"time"
 
 	"simh/codec"
 	"simh/env"
@@ -77,6 +78,17 @@ func installStalls(c *Ctx, n int) {
 				c.S.Count("fault.stall.peer_read")
 			}
 			c.S.Note("stall kind=%d on %s for %d steps", st.kind, e.Name, st.dur)
+		})
+		// a stall can also last in time: the peer is gone for 3-20 s while the write is held
+		long := c.T.Bool(1, 4)
+		c.S.AddActor(fmt.Sprintf("F stall %d lasts", i), func() bool {
+			// (not while a connection attempt of the gateway awaits its answer: that would be a
+			// host that takes seconds to accept, a different fault)
+			return long && st.end != nil && !st.done && !c.S.Draining && c.S.PendingDials() == 0
+		}, func() {
+			long = false
+			c.S.Advance(time.Duration(3+c.T.Choose(18)) * time.Second)
+			c.S.Count("fault.stall.seconds")
 		})
 		c.S.AddActor(fmt.Sprintf("F stall %d off", i), func() bool { return st.end != nil && !st.done && c.S.Steps >= st.at+st.dur }, func() {
 			st.end.HoldWrites, st.end.HoldDeliver, st.end.Peer.HoldDeliver = false, false, false
@@ -313,6 +325,7 @@ func runC06(c *Ctx) {
 		}
 	}
 	hostStream := c.T.Bool(1, 2)
+	c.S.PartialWrites = c.T.Bool(1, 3) // socket buffers that take only part of a write
 	// the host may end the connection itself: close after its last write (everything it wrote
 	// must still reach the client) or reset in the middle of its script
 	hostEnd := c.T.Weighted(5, 1, 1)
@@ -342,6 +355,10 @@ func runC06(c *Ctx) {
 		}
 	}
 	v := CheckTunnel(c, t, tw.MC, "C06")
+	if vi := c.S.Viol; vi != nil && vi.Oracle == "C09" && vi.Sig == "torn-frame" {
+		// a stream the client cannot frame any more: what it was sent is not the host's stream
+		vi.Oracle = "C06"
+	}
 	if vi := c.S.Viol; vi != nil && vi.Oracle == "C16" && strings.HasPrefix(vi.Sig, "malformed:DATA") {
 		// "every data packet sent to the client is well-formed" is a clause of C06 itself
 		vi.Oracle = "C06"
